@@ -90,6 +90,7 @@ def run_history(k, forest, e0, share=False):
                 obs.append(("region %d: error suppression = initial or some condition false" % ci,
                             bool(rt._ignore_errors) == (bool(e0) or anyzero)))
             obs.append(("region %d: constants are multiples of the active guard" % ci, rt.LinComb.ONE is rt.guard))
+            rt.LinComb._ensurelc(7)          # an integer constant converted inside the region (must not be remembered with this meaning)
             boom = BoomBase if kind == "K" else Boom
             for i, kid in enumerate(kids):
                 if rp == i:
@@ -102,6 +103,29 @@ def run_history(k, forest, e0, share=False):
         try:
             if kind in ("G", "K"):
                 rt.guarded(cond_obj(nm))(body)()
+            elif kind == "E":
+                # if / elif / else chain: the _elif condition belongs to the state before the _if
+                br = k.br
+                ctx = br.BranchingValues()
+                ctx.v = 0
+                try:
+                    br._if(cond_obj(nm), ctx=ctx)
+                except ValueError:
+                    raise RuntimeError("incorrect guard value (not boolean)")
+                body()
+                ctx.v = 1
+                seen = []
+
+                def elif_cond():
+                    seen.append(triple())
+                    return rt.PrivVal(1)
+                br._elif(elif_cond, ctx=ctx)
+                obs.append(("region %d: the _elif condition is evaluated in the state before the _if" % ci,
+                            len(seen) == 1 and same(before, seen[0])))
+                ctx.v = 2
+                br._else(ctx=ctx)
+                ctx.v = 3
+                br._endif(ctx=ctx)
             elif kind in ("I", "J"):
                 br = k.br
                 ctx = br.BranchingValues()
@@ -150,6 +174,8 @@ def run_history(k, forest, e0, share=False):
     for node in forest:
         region(node, [])
     obs.append(("whole history: final state equals initial state", same(init, triple())))
+    obs.append(("whole history: an integer constant means itself again (7 times the constant-one wire)",
+                dict(rt.LinComb._ensurelc(7).lc.lc) == dict((rt.LinComb.ONE_SAFE * 7).lc.lc)))
     return obs
 
 
@@ -162,7 +188,7 @@ def build(n=4, tier="quick"):
     ents = []
     forests = list(trees(maxr, maxd))
     seen = set(forests)
-    for f in trees(2 if tier == "quick" else 3, 2, kinds=("G", "P", "I", "J", "K")):
+    for f in trees(2 if tier == "quick" else 3, 2, kinds=("G", "P", "I", "J", "K", "E")):
         if f not in seen:
             forests.append(f)
             seen.add(f)
@@ -178,7 +204,7 @@ def build(n=4, tier="quick"):
         if depth3:
             inner = (kind_i, None, ((kind_i, None, ()),))
         return ((kind_o, None, (inner,)), (kind_o, None, (inner,)))
-    sh = [two("G", "G"), two("P", "P"), two("I", "I"), two("G", "P"), two("I", "G")]
+    sh = [two("G", "G"), two("P", "P"), two("I", "I"), two("G", "P"), two("I", "G"), two("E", "G"), two("G", "E")]
     if tier != "quick":
         sh += [two("G", "G", True), two("P", "G", True), ((("G", None, (("G", None, ()), ("G", None, ()))),)),
                two("G", "G") + (("G", None, (("P", None, ()),)),)]
